@@ -20,6 +20,9 @@ Driver for C11.  One request per line, `k=v` fields separated by spaces:
   op=durop K=<ymadd|ymsub|dtadd|dtsub|ymmul|ymdiv|dtmul|dtdiv> X=<months|µs> Y=<other duration> N= D=   number = N/D
   op=lexdt K=<dateTime|date|time> V= S=<code points>   fromstring on the text + str() of the result
   op=lex   V=<10|11> Y=<lexical year>       internal year and its string/year-from form back
+  op=tzlex S=<code points>                 Timezone.fromstring on the text + str() of the result; spec = XSD timezoneFrag
+                                           lexical/canonical mapping after white-space collapse; inZ=1 iff inside the trigger of F11z
+  op=tztab                                 the white-space and decimal-digit tables of the `int()`/`strip()` model
   op=pyord N=<ordinal>                      CPython date.fromordinal / toordinal (trusted component)
   op=durcmp M1= S1= M2= S2=                 duration comparison (lt,le,gt,ge bits; µs)
 
@@ -30,6 +33,9 @@ Answer: `model=<..> spec=<..> inK=<0|1>`; errors `ERR:ValueError|OverflowError|T
 import EPV.Proto
 import EPV.Lemmas.CalendarTime
 import EPV.Model.CalendarLex
+import EPV.Model.TzLex
+import EPV.Spec.TzLex
+import EPV.Model.TzLexFinding
 open EPV.Proto EPV.Cal
 open EPV.Timeline (Val)
 
@@ -277,6 +283,26 @@ def answer (line : String) : String :=
     match r with
     | .ok (v, t) => s!"model={showDT v}|{showS t} spec=- inK=0"
     | .error e => s!"model={showErr e} spec=- inK=0"
+  | "tzlex" =>
+    let cps := (f "S").splitOn "," |>.filterMap (fun x => nat? x)
+    let str : List Char := cps.map Char.ofNat
+    let showS (l : List Char) : String := ",".intercalate (l.map fun c => toString c.toNat)
+    let model := match EPV.TzLex.fromString str with
+      | .ok m => s!"{m}|{showS (EPV.TzLex.toStr m)}"
+      | .valueError => "ERR:ValueError"
+      | .overflowError => "ERR:OverflowError"
+    let spec := match EPV.TzLexSpec.parseWs str with
+      | some m => s!"{m}|{showS (EPV.TzLexSpec.canon m)}"
+      | none => "ERR:ValueError"
+    let br := match EPV.TzLexSpec.parseWs str, EPV.TzLex.fromString str with
+      | some _, _ => if EPV.TzLexSpec.collapse str == ['Z'] then "Z" else "grammar"
+      | none, .ok _ => "pinned"
+      | none, .valueError => "reject"
+      | none, .overflowError => "overflow"
+    s!"model={model} spec={spec} inK=0 inZ={if EPV.TzLex.pinnedZero str then 1 else 0} br={br}"
+  | "tztab" =>
+    let l (xs : List Nat) : String := ",".intercalate (xs.map toString)
+    s!"model={l EPV.TzLex.pySpaceCPs}|{l EPV.TzLex.ndZeros} spec=- inK=0"
   | "lex" =>
     match int? (f "Y") with
     | some y =>
